@@ -368,7 +368,25 @@ impl Ord for Value {
                 ValueInner::Undefined => 7,
             }
         }
-        type_order(&self.inner).cmp(&type_order(&other.inner))
+        let by_type = type_order(&self.inner).cmp(&type_order(&other.inner));
+        if by_type != Ordering::Equal {
+            return by_type;
+        }
+
+        // Same kind but not comparable (maps, or arrays holding items that aren't comparable):
+        // use a structural order so that only equal values compare as `Equal` and the order
+        // stays total, which `sort_by`/`BTreeSet` rely on.
+        match (&self.inner, &other.inner) {
+            (ValueInner::Array(a), ValueInner::Array(b)) => a.iter().cmp(b.iter()),
+            (ValueInner::Map(a), ValueInner::Map(b)) => {
+                let mut a: Vec<_> = a.iter().collect();
+                let mut b: Vec<_> = b.iter().collect();
+                a.sort_by(|x, y| x.0.cmp(y.0));
+                b.sort_by(|x, y| x.0.cmp(y.0));
+                a.cmp(&b)
+            }
+            _ => Ordering::Equal,
+        }
     }
 }
 
